@@ -313,6 +313,7 @@ extern int rec_n;                        /* number of callback invocations since
 extern const struct cbor_callbacks rec_table;
 extern int rec_reenter;               /* callbacks decode an unrelated buffer before returning */
 extern uint64_t rec_reentered_calls;
+extern int rec_deep_target, rec_deep_level, rec_deep_ok, rec_deep_first_bad; /* recursive-descent client: callbacks re-enter the decoder that many levels deep */
 struct cbor_callbacks rec_table_only(int slot); /* only that callback exists, every other slot is NULL */
 extern void* rec_expected_ctx;           /* callbacks check the context pointer they receive */
 extern int rec_bad_ctx;
